@@ -56,25 +56,40 @@ theorem update_ok (s s' : PState) (mults rest : List UInt64) (h : s.update mults
         subst h1 h4
         exact ⟨c, inst, att, hc, hi, hp, rfl, rfl, rfl⟩
 
-/-- the arguments passed by reference get the v-table pointers of their registered classes -/
-theorem lookups_ok (s' : PState) (inst : Installed) (ids : List (List Nat))
-    (hlook : ∀ (ci : Nat) (l : List Nat) (id : Nat), ids[ci]? = some l → id ∈ l → lookupVptr s'.cfg s'.pub id = .ok (.cur ci)) :
-    ∀ (args : List (Kind × Nat)) (cs : List Nat) (k : Nat), (∀ a ∈ args, a.1 ≠ .vptr) →
+theorem lookupForVptr_of_lookup (cfg : Cfg) (p : Pub) (id : Nat) (sl : VSlot) (h : lookupVptr cfg p id = .ok sl) :
+    lookupForVptr cfg p id = .ok sl := by
+  unfold lookupForVptr
+  unfold lookupVptr at h
+  by_cases hm : cfg.vptrMap = true
+  · simp only [hm, if_true] at h ⊢
+    split at h
+    · exact h
+    · cases h
+  · simp only [hm, Bool.false_eq_true, if_false] at h ⊢
+    unfold lookupVptr
+    simp only [hm, Bool.false_eq_true, if_false]
+    exact h
+
+/-- the arguments passed by reference, and the `virtual_ptr`s made on the spot from a reference (no
+    class being the static one), get the v-table pointers of their registered classes -/
+theorem lookups_ok (s' : PState) (inst : Installed) (c : Compiled) (hc : s'.compiled = some c) (hstatic : s'.staticId = 0)
+    (ids : List (List Nat))
+    (hlook : ∀ (ci : Nat) (l : List Nat) (id : Nat), ids[ci]? = some l → id ∈ l → lookupVptr s'.cfg s'.pub id = .ok (.cur ci))
+    (hkeys : ∀ (ci : Nat) (l : List Nat) (id : Nat), ids[ci]? = some l → id ∈ l → classIdx c.graph.heads (s'.cfg.proj id) = some ci) :
+    ∀ (args : List (Kind × Nat)) (cs : List Nat) (k : Nat),
       Forall₂ (fun (id ci : Nat) => ∃ l, ids[ci]? = some l ∧ id ∈ l) (virtIds args) cs →
       ∃ vargs, (List.zipIdx args k).mapM (s'.argLookup inst .ref []) = .ok vargs ∧
         Walk.virtPtrs vargs = cs.map inst.vptr.get
-  | [], cs, k, _, h => by
+  | [], cs, k, h => by
     cases h
     exact ⟨[], by simp [List.mapM_nil, pure, Except.pure], rfl⟩
-  | (kd, id) :: rest, cs, k, hk, h => by
+  | (kd, id) :: rest, cs, k, h => by
     rw [List.zipIdx_cons, List.mapM_cons]
-    have hkd := hk (kd, id) (by simp)
     cases kd with
-    | vptr => exact absurd rfl hkd
     | nonvirt =>
       have h' : Forall₂ (fun (id ci : Nat) => ∃ l, ids[ci]? = some l ∧ id ∈ l) (virtIds rest) cs := by
         simpa [virtIds, Kind.isVirtual] using h
-      obtain ⟨vr, hvr, hptrs⟩ := lookups_ok s' inst ids hlook rest cs (k + 1) (fun a ha => hk a (by simp [ha])) h'
+      obtain ⟨vr, hvr, hptrs⟩ := lookups_ok s' inst c hc hstatic ids hlook hkeys rest cs (k + 1) h'
       refine ⟨(Kind.nonvirt, 0) :: vr, ?_, ?_⟩
       · simp only [PState.argLookup, hvr, bind, Except.bind, pure, Except.pure]
       · simpa [Walk.virtPtrs, Kind.isVirtual] using hptrs
@@ -84,16 +99,40 @@ theorem lookups_ok (s' : PState) (inst : Installed) (ids : List (List Nat))
       cases h with
       | @cons _ ci _ cs' hhead htail =>
         obtain ⟨l, hl, hid⟩ := hhead
-        obtain ⟨vr, hvr, hptrs⟩ := lookups_ok s' inst ids hlook rest cs' (k + 1) (fun a ha => hk a (by simp [ha])) htail
+        obtain ⟨vr, hvr, hptrs⟩ := lookups_ok s' inst c hc hstatic ids hlook hkeys rest cs' (k + 1) htail
         refine ⟨(Kind.virt, inst.vptr.get ci) :: vr, ?_, ?_⟩
         · simp only [PState.argLookup, hlook ci l id hl hid, slotVptr, hvr, bind, Except.bind, pure, Except.pure]
+        · simp only [Walk.virtPtrs, Kind.isVirtual, List.filter_cons_of_pos, List.map_cons] at hptrs ⊢
+          rw [hptrs]
+    | vptr =>
+      have hv : virtIds ((Kind.vptr, id) :: rest) = id :: virtIds rest := by simp [virtIds, Kind.isVirtual]
+      rw [hv] at h
+      cases h with
+      | @cons _ ci _ cs' hhead htail =>
+        obtain ⟨l, hl, hid⟩ := hhead
+        obtain ⟨vr, hvr, hptrs⟩ := lookups_ok s' inst c hc hstatic ids hlook hkeys rest cs' (k + 1) htail
+        refine ⟨(Kind.vptr, inst.vptr.get ci) :: vr, ?_, ?_⟩
+        · have hfv := lookupForVptr_of_lookup _ _ _ _ (hlook ci l id hl hid)
+          have hmk : ∃ vp, s'.mkVPtr id = .ok vp ∧ s'.derefVPtr inst vp = .ok (inst.vptr.get ci) := by
+            unfold PState.mkVPtr
+            simp only [hstatic, bne_self_eq_false, Bool.and_false, Bool.false_eq_true, if_false, hfv]
+            by_cases hind : s'.cfg.indirect = true
+            · simp only [hind, if_true]
+              refine ⟨_, rfl, ?_⟩
+              simp only [PState.derefVPtr, PState.cellSlot, hc, hkeys ci l id hl hid, slotVptr]
+            · simp only [hind, Bool.false_eq_true, if_false]
+              refine ⟨_, rfl, ?_⟩
+              simp only [PState.derefVPtr, bne_self_eq_false, Bool.false_eq_true, if_false, slotVptr]
+          obtain ⟨vp, hvp, hd⟩ := hmk
+          simp only [PState.argLookup, List.find?_nil, hvp, hd, hvr, bind, Except.bind, pure, Except.pure]
+          rfl
         · simp only [Walk.virtPtrs, Kind.isVirtual, List.filter_cons_of_pos, List.map_cons] at hptrs ⊢
           rw [hptrs]
 
 /-- **C01 + C02 at the outermost level of the model.** After an `update` that succeeded, on a registry
     without inheritance cycles whose ids are machine words: a call of a registered method, with
-    arguments passed by reference whose dynamic types are registered classes acceptable for the
-    parameters, does exactly what the specification prescribes for the keys of those classes —
+    arguments passed by reference or as `virtual_ptr`s made from a reference (no class being the
+    static one) whose dynamic types are registered classes acceptable for the parameters, does exactly what the specification prescribes for the keys of those classes —
     it runs the definition more specific than every other applicable one; or, when there is none or
     several incomparable ones, runs nothing and raises a resolution error whose status tells the two
     cases apart, whose arity is the number of virtual parameters and whose type ids are the dynamic
@@ -106,7 +145,7 @@ theorem C01_C02_call_after_update (s s' : PState) (mults rest : List UInt64)
     (c : Compiled) (hc : s'.compiled = some c)
     (key mi : Nat) (m : MethodC) (hfind : (List.zipIdx c.methods).find? (fun e => e.1.key == key) = some (m, mi))
     (args : List (Kind × Nat)) (cs : List Nat)
-    (hkinds : ∀ a ∈ args, a.1 ≠ .vptr)
+    (hstatic : s'.staticId = 0)
     (hreg : Forall₂ (fun (id ci : Nat) => id ∈ c.graph.ids ci) (virtIds args) cs)
     (hacc : Forall₂ (fun cl v => cl ∈ c.graph.cov.get v) cs m.vp) (hpos : 0 < m.vp.length) :
     ∃ mr o, s.registry.methods[mi]? = some mr ∧
@@ -173,7 +212,14 @@ theorem C01_C02_call_after_update (s s' : PState) (mults rest : List UInt64)
         rw [← hrid]; exact hword r hr
   have hreg' : Forall₂ (fun (id ci : Nat) => ∃ l, ids[ci]? = some l ∧ id ∈ l) (virtIds args) cs :=
     forall₂_imp hreg (fun id ci h => ⟨_, hidsget ci (hidkey id ci h).2, h⟩)
-  obtain ⟨vargs, hvargs, hptrs⟩ := lookups_ok s' inst ids hlook args cs 0 hkinds hreg'
+  have hkeys : ∀ (ci : Nat) (l : List Nat) (id : Nat), ids[ci]? = some l → id ∈ l →
+      classIdx c.graph.heads (s'.cfg.proj id) = some ci := by
+    intro ci l id hl hid
+    rw [hidsget' ci l hl] at hid
+    have hk1 := (hidkey id ci hid).1
+    rw [hcfg, hheads]
+    exact classIdx_of_get (heads_keys s.cfg.proj s.registry.classes).1 hk1
+  obtain ⟨vargs, hvargs, hptrs⟩ := lookups_ok s' inst c hc hstatic ids hlook hkeys args cs 0 hreg'
   -- the walk
   have hlen : (Walk.virtPtrs vargs).length = m.vp.length := by
     rw [hptrs, List.length_map]; exact forall₂_length hacc
@@ -207,7 +253,7 @@ theorem C02_unresolvable_calls_are_reported (s s' : PState) (mults rest : List U
     (c : Compiled) (hc : s'.compiled = some c)
     (key mi : Nat) (m : MethodC) (hfind : (List.zipIdx c.methods).find? (fun e => e.1.key == key) = some (m, mi))
     (args : List (Kind × Nat)) (cs : List Nat)
-    (hkinds : ∀ a ∈ args, a.1 ≠ .vptr)
+    (hstatic : s'.staticId = 0)
     (hreg : Forall₂ (fun (id ci : Nat) => id ∈ c.graph.ids ci) (virtIds args) cs)
     (hacc : Forall₂ (fun cl v => cl ∈ c.graph.cov.get v) cs m.vp) (hpos : 0 < m.vp.length)
     (mr : MethodRec) (hmr : s.registry.methods[mi]? = some mr) (o : Outcome) (ho : ∀ d, o ≠ .ran d)
@@ -215,7 +261,7 @@ theorem C02_unresolvable_calls_are_reported (s s' : PState) (mults rest : List U
     s'.callWith key args .ref [] =
       .raised (.resolution (if o = .ambiguous then .amb else .ni) m.vp.length (errorTypes args)) := by
   obtain ⟨mr', o', hmr', hsel', hcall⟩ := C01_C02_call_after_update s s' mults rest hup hwf hword c hc key mi m hfind
-    args cs hkinds hreg hacc hpos
+    args cs hstatic hreg hacc hpos
   rw [hmr] at hmr'; cases hmr'
   have hr : Ranked s.cfg.proj s.registry s.registry.classes.length := by
     have := hwf; unfold WF at this
